@@ -1733,6 +1733,7 @@ func (s *Store) ExecuteTransaction(transaction *Transaction) error {
 	unlock := func() {
 		for _, ds := range locked {
 			ds.WriteLock.Unlock()
+			verifhook.Point("txn.unlocked", ds.ID)
 		}
 		locked = nil
 	}
@@ -1786,6 +1787,7 @@ func (s *Store) ExecuteTransaction(transaction *Transaction) error {
 	// which this transaction may hold itself (it is locked last): release it first
 	if n := len(locked); n > 0 && locked[n-1].ID == datasetCore {
 		locked[n-1].WriteLock.Unlock()
+		verifhook.Point("txn.unlocked", datasetCore)
 		locked = locked[:n-1]
 	}
 
